@@ -94,6 +94,9 @@ impl Property for C01Prop {
     fn rule(&self) -> &'static str {
         "exhaustive: every sequence of <= 2 tokens over a 107-token alphabet (one representative of each command keyword, modifier, data type and keyword token, identifiers, i, pi, sin, small / 2^63 / 2^64-1 / 2^64 integers, hex, a bare 0b, floats incl. 1e400, strings, %variable, @target, each operator and punctuation mark, newline, indent, tab, comment) joined by single spaces, plus every sequence of 3 tokens over the first 48 (quick) / over all 107 (thorough); 12 nesting probes ('(' x d, 'sin(' x d, '-(' x d, '-' x d, '^2' x d, '+1' x d, 'DAGGER ' x d, long blocks, '[0]' x d, long qubit lists, escaped-quote runs) at depths {8, 64, 512, 4096} (quick) and up to 100000 (thorough); random: spelling-template programs, printed API-built programs and corpus programs with 1..3 token / byte mutations. Non-trivial = the string has >= 2 whitespace-separated tokens; distinct by string hash."
     }
+    fn guided(&self) -> bool {
+        false
+    }
     fn max_words(&self) -> usize {
         4000
     }
